@@ -11,6 +11,7 @@ Inductive glev :=
 | GCall (f : string)     (* a call of a group's Listen / Register / UnRegister / HTTPConnectListen *)
 | GOp (f : string)       (* close(acceptCh), real listener Close, port Release *)
 | GGate | GDeferBlock | GDeferEnd
+| GMemberCall            (* a call of a function value held by the group: a member's CreateConnFn (the dial) *)
 | GUnknown (s : string).
 
 (* walk the events in source order.  hc / hg: controller / group mutex held; dc: the controller mutex
@@ -37,7 +38,7 @@ Fixpoint lock_walk (evs : list glev) (hc hg ind dc : bool) (nc : nat) : option n
       | GTable => if hc && (negb ind || dc) then lock_walk r hc hg ind dc nc else None
       | GCall _ => if hc && negb ind then lock_walk r hc hg ind dc nc else None
       | GOp _ => if hc && hg && negb ind then lock_walk r hc hg ind dc nc else None
-      | GGate => lock_walk r hc hg ind dc nc
+      | GGate | GMemberCall => lock_walk r hc hg ind dc nc
       | GDeferBlock => if ind then None else lock_walk r hc hg true dc nc
       | GDeferEnd => lock_walk r hc hg false dc nc
       | GUnknown _ => None
@@ -99,3 +100,54 @@ Fixpoint shapes_eqb (a b : list (string * list string)) : bool :=
   | _, _ => false
   end.
 Definition group_shapes_ok (sh : list (string * list string)) : bool := shapes_eqb sh expected_shapes.
+
+(* ---- http group: the member's CreateConnFn (which may wait for a work connection for seconds) is
+   called outside the group's lock, so a stalled member blocks neither the other members' requests nor a
+   join / leave ---- *)
+Fixpoint grp_held (evs : list glev) (h : bool) : bool :=
+  match evs with
+  | [] => h
+  | GLock m :: r => if String.eqb m "grp" then grp_held r true else grp_held r h
+  | GUnlock m :: r => if String.eqb m "grp" then grp_held r false else grp_held r h
+  | _ :: r => grp_held r h
+  end.
+
+Fixpoint member_walk (evs : list glev) (hg : bool) : bool :=
+  match evs with
+  | [] => true
+  | e :: r =>
+      match e with
+      | GLock m => if String.eqb m "grp" then member_walk r true else member_walk r hg
+      | GUnlock m => if String.eqb m "grp" then member_walk r false else member_walk r hg
+      | GDeferUnlock m => if String.eqb m "grp" then false else member_walk r hg   (* held until return *)
+      | GMemberCall => negb hg && member_walk r hg
+      | GUnknown _ => false
+      | _ => member_walk r hg
+      end
+  end.
+
+Definition has_member_call (evs : list glev) : bool :=
+  existsb (fun e => match e with GMemberCall => true | _ => false end) evs.
+
+Definition expected_member_functions : list string :=
+  ["HTTPGroup.createConn"; "HTTPGroup.chooseEndpoint"; "HTTPGroup.createConnByEndpoint"].
+
+Definition member_calls_ok (facts : list (string * list glev)) : bool :=
+  sl_eqb (map fst facts) expected_member_functions && forallb (fun f => member_walk (snd f) false) facts &&
+  forallb (fun f => String.eqb (fst f) "HTTPGroup.chooseEndpoint" || has_member_call (snd f)) facts.
+
+(* server/proxy/http.go Run: in each group branch the leave is arranged only AFTER the join succeeded, so
+   the roll-back of a refused join (the deferred Close) cannot remove somebody else's membership *)
+Definition expected_run_group_blocks : list (list string) :=
+  [["Register"; "IfErrReturn"; "AppendUnRegister"]; ["Register"; "IfErrReturn"; "AppendUnRegister"]].
+Fixpoint sll_eqb (a b : list (list string)) : bool :=
+  match a, b with
+  | [], [] => true
+  | x :: a', y :: b' => sl_eqb x y && sll_eqb a' b'
+  | _, _ => false
+  end.
+
+(* pkg/util/vhost/http.go: a CONNECT is dialled through the route's CreateConnFn (the group's rotation),
+   the endpoint chosen for a request is the one that goes into the backend-connection pool key *)
+Definition expected_vhost_http_group_facts : list string :=
+  ["ConnectDialsByRoute"; "EndpointAssignedToOuter"; "PoolKeyHasEndpoint"].
